@@ -159,12 +159,15 @@ func rulePanosXPathScope(p *Prog, r *Report) {
 }
 
 func checkC07(p *Prog, r *Report) {
+	ruleRegexpConsts(p, r, "R-RX", "C07", 2)
 	ruleNSXLoadFilter(p, r)
 	rulePanosXPathScope(p, r)
 	r.rule("R07.5", "Protection sites of the Cisco planner keep exactly their audited controlling conditions (tables/guards.tsv): marking of objects behind unknown interfaces / unmanaged VRFs as needed; deletion candidates = not needed and (marked toDelete or generated name); the walk that protects everything an unmanaged object still references; deletion only when nothing to be deleted later references the object; no change for aaa-server, ldap attribute-map, interface; routes deleted only where the target specifies routes. Guard sets are computed from go/ssa (all If edges dominating the site, normalised) and compared as multisets.")
 	ruleGuardTable(p, r, "R07.5", "C07")
 	r.rule("R-M", "Mark discipline (Cisco): needed / ready / toDelete decide which device objects are kept and which become deletion candidates; every store into such a mark in package cisco lies at a function+site whose controlling conditions are audited rows of tables/guards.tsv (compared by R07.5).")
 	ruleMarkDiscipline(p, r, "R-M", "C07", "cisco", []string{"cmd.needed", "cmd.ready", "cmd.toDelete"}, 18)
+	// the references of a command are the edges the protecting walk follows: where they are set or dropped
+	ruleMarkDiscipline(p, r, "R-M", "C07", "cisco", []string{"cisco.cmd.ref"}, 5)
 	ruleListMapsAccumulate(p, r)
 	ruleTemplateOrder(p, r, "R07.t")
 	rulePanosForeignVsys(p, r)
